@@ -683,8 +683,10 @@ func runC01(c *Ctx) {
 		}
 		return false
 	}
+	litSeen := map[*ssa.Alloc]bool{}
 	for _, ent := range entries {
 		name := load.FuncName(ent)
+		entTop := ent
 		if isCore(ent) {
 			c.S.OK("R3", name+":is core", c.pos(ent.Pos()), "the verification core itself (R1)", false)
 			continue
@@ -748,42 +750,54 @@ func runC01(c *Ctx) {
 		}
 		// options literals with a pool built here
 		isCLI := load.RelPkg(ent) == "gcetcbendorsement/cmd"
-		for _, b := range ent.Blocks {
-			for _, in := range b.Instrs {
-				al, ok := in.(*ssa.Alloc)
-				if !ok {
-					continue
-				}
-				st, pidx := poolField(al.Type())
-				if pidx < 0 {
-					continue
-				}
-				stores := map[int]ssa.Value{}
-				copiedFromOwned := false
-				for _, ref := range *al.Referrers() {
-					// whole-struct copy `x := *opts`: every field is the caller's
-					if s2, ok := ref.(*ssa.Store); ok && s2.Addr == al {
-						if ld, ok := s2.Val.(*ssa.UnOp); ok && ld.Op == token.MUL && ownsValue(ld.X, ent) {
-							copiedFromOwned = true
-						}
+		// the literal may be built by an unexported helper of the entry point (its own parameters are then "the caller's")
+		for _, lf := range unexportedRegion(ent) {
+			if lf != entTop && (entrySet[lf] || isCore(lf) || isChain(lf)) {
+				continue
+			}
+			ent := lf
+			name := name
+			if lf != entTop {
+				name = load.FuncName(lf)
+			}
+			for _, b := range ent.Blocks {
+				for _, in := range b.Instrs {
+					al, ok := in.(*ssa.Alloc)
+					if !ok || litSeen[al] {
+						continue
 					}
-					if fa, ok := ref.(*ssa.FieldAddr); ok {
-						for _, r2 := range *fa.Referrers() {
-							if s2, ok := r2.(*ssa.Store); ok && s2.Addr == fa {
-								stores[fa.Field] = s2.Val
+					st, pidx := poolField(al.Type())
+					if pidx < 0 {
+						continue
+					}
+					litSeen[al] = true
+					stores := map[int]ssa.Value{}
+					copiedFromOwned := false
+					for _, ref := range *al.Referrers() {
+						// whole-struct copy `x := *opts`: every field is the caller's
+						if s2, ok := ref.(*ssa.Store); ok && s2.Addr == al {
+							if ld, ok := s2.Val.(*ssa.UnOp); ok && ld.Op == token.MUL && ownsValue(ld.X, ent) {
+								copiedFromOwned = true
+							}
+						}
+						if fa, ok := ref.(*ssa.FieldAddr); ok {
+							for _, r2 := range *fa.Referrers() {
+								if s2, ok := r2.(*ssa.Store); ok && s2.Addr == fa {
+									stores[fa.Field] = s2.Val
+								}
 							}
 						}
 					}
-				}
-				construct := name + ":" + typeShort(al.Type().(*types.Pointer).Elem())
-				pv := stores[pidx]
-				okPool := (pv == nil && copiedFromOwned) || (pv != nil && c.poolFromCaller(sl, pv, ent, isCLI, poolBuilders))
-				c.S.Check(okPool, "R3b", construct+".roots", c.pos(al.Pos()), "roots of trust forwarded from the caller", "options built here do not carry the caller's roots of trust")
-				for i := 0; i < st.NumFields(); i++ {
-					if st.Field(i).Name() == "Now" && namedIs(st.Field(i).Type(), "time", "Time") {
-						tv := stores[i]
-						okT := (tv == nil && copiedFromOwned) || (tv != nil && c.timeFromCaller(sl, tv, ent, isCLI))
-						c.S.Check(okT, "R3b", construct+".time", c.pos(al.Pos()), "verification time forwarded from the caller", "options built here do not carry the caller's verification time (zero time or wall clock)")
+					construct := name + ":" + typeShort(al.Type().(*types.Pointer).Elem())
+					pv := stores[pidx]
+					okPool := (pv == nil && copiedFromOwned) || (pv != nil && c.poolFromCaller(sl, pv, ent, isCLI, poolBuilders))
+					c.S.Check(okPool, "R3b", construct+".roots", c.pos(al.Pos()), "roots of trust forwarded from the caller", "options built here do not carry the caller's roots of trust")
+					for i := 0; i < st.NumFields(); i++ {
+						if st.Field(i).Name() == "Now" && namedIs(st.Field(i).Type(), "time", "Time") {
+							tv := stores[i]
+							okT := (tv == nil && copiedFromOwned) || (tv != nil && c.timeFromCaller(sl, tv, ent, isCLI))
+							c.S.Check(okT, "R3b", construct+".time", c.pos(al.Pos()), "verification time forwarded from the caller", "options built here do not carry the caller's verification time (zero time or wall clock)")
+						}
 					}
 				}
 			}
